@@ -10,7 +10,7 @@ from ..seeds import digest
 ID = "C16"
 LEVEL = "fault_enumeration"
 BUDGET = {
-    "quick": {"runs": 800, "wall": 300, "chunk": 10},
+    "quick": {"runs": 2000, "wall": 300, "chunk": 10},
     "thorough": {"runs": 20000, "wall": 3000, "chunk": 50},
 }
 PALETTE = ["huge_random", "huge_same_sign", "colluding_duplicates", "copy_of_honest_row", "honest_extremes", "zeros", "sign_flip_scaled", "near_honest_mean", "mixed"]
